@@ -251,6 +251,21 @@ func initHarnessExternals() {
 			}
 			return unterm(i.tc.Mk("ite", SBV64, i.term(a[0]), i.term(a[1]), i.term(a[2])), types.Uint64)
 		},
+		"verifDurationParts": func(fr *frame, a []value) value {
+			// d = sec*1e9 + nsec with 0 <= sec < 2^33, 0 <= nsec < 1e9; division of d by 1e9 is answered from the parts
+			i := fr.i
+			sec, nsec := i.term(a[0]), i.term(a[1])
+			c := func(v uint64) *Term { return i.tc.Const(SBV64, v) }
+			i.assume(unterm(i.tc.Mk("and", SBool,
+				i.tc.Mk("bvsle", SBool, c(0), sec), i.tc.Mk("bvslt", SBool, sec, c(1<<33)),
+				i.tc.Mk("bvsle", SBool, c(0), nsec), i.tc.Mk("bvslt", SBool, nsec, c(1000000000))), types.Bool))
+			d := i.tc.Mk("bvadd", SBV64, i.tc.Mk("bvmul", SBV64, sec, c(1000000000)), nsec)
+			if i.divHints == nil {
+				i.divHints = map[*Term]divHint{}
+			}
+			i.divHints[d] = divHint{c: 1000000000, q: sec, r: nsec}
+			return unterm(d, types.Int64)
+		},
 		"verifIsSymbolic": func(fr *frame, a []value) value { return true },
 		"verifSameObject": func(fr *frame, a []value) value {
 			// pointer identity of two interface-boxed pointers or slices (first element)
@@ -336,4 +351,76 @@ func init() {
 		}
 		return convNumeric(fr.i, types.Uint64, k, a[0].(reflValue).v)
 	}
+}
+
+// ---- hash/maphash: the hash of a byte stream is an uninterpreted function of the
+// stream: equal streams give equal hashes (Ackermann constraints between all Sum64
+// calls of a path); with Harness.HashInjective different streams give different
+// hashes (the stated no-collision assumption).
+
+type hashCall struct {
+	stream []value
+	h      *Term
+}
+
+func init() {
+	stream := func(fr *frame, p value) *[]value {
+		i := fr.i
+		pp := i.deref(p)
+		if i.hashStreams == nil {
+			i.hashStreams = map[*value]*[]value{}
+		}
+		s := i.hashStreams[pp]
+		if s == nil {
+			s = &[]value{}
+			i.hashStreams[pp] = s
+		}
+		return s
+	}
+	externals["hash/maphash.MakeSeed"] = func(fr *frame, a []value) value { return structure{uint64(1)} }
+	externals["(*hash/maphash.Hash).SetSeed"] = func(fr *frame, a []value) value { *stream(fr, a[0]) = nil; return nil }
+	externals["(*hash/maphash.Hash).Reset"] = func(fr *frame, a []value) value { *stream(fr, a[0]) = nil; return nil }
+	externals["(*hash/maphash.Hash).WriteString"] = func(fr *frame, a []value) value {
+		s := stream(fr, a[0])
+		b := strBytes(a[1])
+		*s = append(*s, b...)
+		return tuple{len(b), iface{}}
+	}
+	externals["(*hash/maphash.Hash).Write"] = func(fr *frame, a []value) value {
+		s := stream(fr, a[0])
+		b := a[1].([]value)
+		*s = append(*s, b...)
+		return tuple{len(b), iface{}}
+	}
+	externals["(*hash/maphash.Hash).WriteByte"] = func(fr *frame, a []value) value {
+		s := stream(fr, a[0])
+		*s = append(*s, a[1])
+		return iface{}
+	}
+	externals["(*hash/maphash.Hash).Sum64"] = func(fr *frame, a []value) value {
+		i := fr.i
+		s := append([]value(nil), *stream(fr, a[0])...)
+		return i.hashOf(s)
+	}
+}
+
+func (i *interpreter) hashOf(s []value) value {
+	h := i.tc.Var(fmt.Sprintf("v_hash%d", len(i.hashCalls)), SBV64)
+	me := mkStr(s)
+	for _, prev := range i.hashCalls {
+		var same value = false
+		if len(prev.stream) == len(s) {
+			same = i.strEq(mkStr(prev.stream), me)
+		}
+		eqH := i.tc.Mk("=", SBool, prev.h, h)
+		st := i.term(same)
+		// functional consistency
+		i.pcAssert(i.tc.Mk("or", SBool, i.tc.Mk("not", SBool, st), eqH))
+		if i.h == nil || !i.h.HashCollisions {
+			// no-collision assumption
+			i.pcAssert(i.tc.Mk("or", SBool, st, i.tc.Mk("not", SBool, eqH)))
+		}
+	}
+	i.hashCalls = append(i.hashCalls, hashCall{stream: s, h: h})
+	return &Sym{h}
 }
